@@ -250,7 +250,7 @@ impl Host for SpawnHost {
 }
 
 pub struct SpawnResult {
-    /// (code, detail); codes starting with "c05-" belong to C05, all others to C16
+    /// (code, detail); codes starting with "c05-" belong to C05, "c01-" to C01, all others to C16
     pub violations: Vec<(String, String)>,
     pub commands: u64,
     pub nested_windows: u64,
@@ -496,6 +496,7 @@ pub fn run(sc: &SpawnScenario, sandbox: &Sandbox) -> SpawnResult {
             }
             if let Some(a) = anc.iter().find(|a| planned_fail.contains(a)) {
                 v.push(("c05-ran-below-failure".into(), format!("{:?} was started although its order-only ancestor p{} failed", p.cmd, a)));
+                v.push(("c01-ran-below-unfinished".into(), format!("{:?} was started although the command of its ordering ancestor p{} did not complete successfully (non-zero exit status or killed by a signal)", p.cmd, a)));
             }
         }
     }
@@ -533,7 +534,13 @@ pub fn run(sc: &SpawnScenario, sandbox: &Sandbox) -> SpawnResult {
 pub fn to_vlines(seed: u64, r: &SpawnResult) -> Vec<VLine> {
     r.violations
         .iter()
-        .map(|(c, d)| VLine { sweep: None, seed, op: 0, prop: if c.starts_with("c05-") { "C05".into() } else { "C16".into() }, code: c.clone(), detail: d.clone() })
+        .map(|(c, d)| VLine { sweep: None, seed, op: 0, prop: if c.starts_with("c05-") {
+                "C05".into()
+            } else if c.starts_with("c01-") {
+                "C01".into()
+            } else {
+                "C16".into()
+            }, code: c.clone(), detail: d.clone() })
         .collect()
 }
 
